@@ -127,6 +127,29 @@ def run_pad(ctx, pt):
         ctx.eq(K + '/unpadded-partial-block', r[0], 'exc')
 
 
+# ---- several live pad objects ---------------------------------------------------------------------
+
+def pts_inter(tier):
+    cfgs = [('blake', 512, 32, 224), ('blake', 512, 32, 256), ('blake', 1024, 64, 384), ('blake', 1024, 64, 512),
+            ('md', 512, 32, 0), ('sha', 512, 32, 0), ('sha', 1024, 64, 0), ('md', 1024, 64, 0), ('pkcs7', 64, 32, 0), ('x923', 128, 32, 0),
+            ('iso7816', 64, 32, 0), ('zero', 128, 32, 0)]
+    return [(a, b) for a in cfgs for b in cfgs if a != b]
+
+
+def run_inter(ctx, pt):
+    """pad object A is created, then B (another scheme / geometry / digest size) is created and used, then A is used:
+    what A emits may depend on A's own configuration only"""
+    a, b = pt
+    A = make(a[0], a[1], a[2], a[3])
+    Bo = make(b[0], b[1], b[2], b[3])
+    for (cfg, o) in ((b, Bo), (a, A)):
+        s_, B_, w, hs = cfg
+        n = B_ // 8 + 3
+        M = expander(n, 3)
+        exp = PS.expected_blocks(s_, B_, M, 8 * n, w=w, hsize=hs)
+        drive(ctx, 'C09/%s/with-another-live-pad-object' % s_, o, M, None, exp, s_)
+
+
 # ---- malformed PKCS#7 / X9.23 ------------------------------------------------------
 
 def pts_malformed(tier):
@@ -283,6 +306,8 @@ def subchecks():
     return [
         Sub('pad-unpad', pts_pad, run_pad, engine='P',
             bound='8 schemes x block sizes 8..1024 step 8 (quick: 8..256 step 8 and 512, 1016, 1024; MD/SHA: B>=cs+8, w in {32,64}; BLAKE: 4 digest sizes) x |M| in every residue class near 0, the length-field boundary and the block end, 0..3, 5 and 17 full blocks (every length 0..3B+1 and 5, 17, 33, 257 blocks + every residue when B<=64) x L omitted / every L mod 8 x longer containers; counters read after each block; remove; refusals'),
+        Sub('interleaved-objects', pts_inter, run_inter, engine='H',
+            bound='every ordered pair of 12 pad configurations (4 BLAKE digest sizes, MD/SHA with both word sizes, PKCS#7, X9.23, ISO, zero): A created, B created and used, then A used; blocks and counters vs the specification'),
         Sub('malformed', pts_malformed, run_malformed, engine='D',
             bound='PKCS#7 and X9.23 remove on every whole-block string for block length 1 (1-2 blocks) and 2 (1 block: all 65536), and on every string over {0,1,2,3,blen-1,blen,blen+1,255} for block length 3 (1-2 blocks), 4 (1 block) and a product family for 8'),
         hsub('histories', systems, lambda tier: 4 if tier == 'thorough' else 3,
